@@ -88,6 +88,8 @@ def _r1(ctx):
         else:
             ctx.violated(f, f.node, "%s follows %s; the HCM case needs %s" % (h, got, w), text="%s %s" % (h, got))
     ps = prog.func(D + "_hcm_process_sample")
+    from ._hcm import require_recognised_dispatch
+    require_recognised_dispatch(ps)
     loop = [s for s in ps.node.body if isinstance(s, ast.While)][0]
     top = [s for s in loop.body if isinstance(s, ast.If)]
     guards = {}
